@@ -143,3 +143,11 @@ Proof. vm_compute. split; reflexivity. Qed.
 (* pState.render keeps one row fewer than the terminal is high: the cursor rests below the last row *)
 Theorem terminal_keeps_a_spare_row : gen_terminal_height_adjust = (-1)%Z.
 Proof. reflexivity. Qed.
+
+(* ---------- the wait group (bar_wait_group.go) ---------- *)
+(* what WaitGroup.v's atomic steps rest on: Add and Wait run under the mutex, Add broadcasts exactly when the count has become
+   zero (and somebody may be waiting), and Wait re-checks the count in a loop around cond.Wait *)
+Theorem wait_group_as_modelled :
+  gen_wait_group = [("Add first", "g.mu.Lock()"); ("Wait first", "g.mu.Lock()");
+                    ("Add Broadcast", "if g.n == 0 && g.zero != nil"); ("Wait Wait", "for g.n != 0")].
+Proof. reflexivity. Qed.
